@@ -329,7 +329,7 @@ def run(ctx: Ctx) -> None:
     cases = U.enumerate_split(ctx, "httpgate", "Status", invariants=invs)
     ctx.exhaustive = True
     ctx.rule = ("case = consistent row of Status!Space (route, method class, body class, content type, content encoding, "
-                "token, auth, size), all enumerated by TLC; every row executed (quick: 1, thorough: 3 seeded "
+                "token, auth, size), all enumerated by TLC; every row executed (quick: 1, thorough: 6 seeded "
                 "concretisations); non-trivial = distinct (row, method name, wire body hash, headers) requests. Oracle "
                 "is set-valued for rows with several faults (no precedence in the statement).")
     ctx.assume("supported content encodings are zstd and gzip (identity is judged by C17)",
@@ -354,7 +354,7 @@ def run(ctx: Ctx) -> None:
             tokens[(akey, name)] = U.tokens_of(b)
 
     obs: list[dict] = []
-    nvar = 1 if ctx.quick else 3
+    nvar = 1 if ctx.quick else 6
     for cj in cases:
         c = cj["case"]
         route = c["route"]
